@@ -23,8 +23,9 @@ static const char *rule(const std::string &) {
            "insert_or_assign after a valid history (container snapshot through the accessor + traversal must be unchanged) or at position p of the bulk-load, "
            "range(lo,hi) with lo>hi; C dynamic create with an inversion / reserved mapped value -> NULL; (c) a coordinate of bit width >= FieldBits at point i, "
            "dimension d; builder add_point with a key <= its predecessor inside a segment; negative epsilon with a signed rank type. oracle: the documented "
-           "exception type (any exception for coordinates; NULL from C). non-trivial: violation not at the first/last position, or container non-empty "
-           "before the rejected call; distinct by canonical tape hash";
+           "exception type (any exception for coordinates; NULL from C). positions: first, last, second and last-but-one are over-represented "
+           "(3:3:1:1 against 8 for uniform). non-trivial: the valid part has >= 2-3 elements, or the container is non-empty before the rejected call; distinct "
+           "by canonical tape hash";
 }
 const Engine ENGINE = {"e_reject", 512, &run, &rule};
 } // namespace vf
